@@ -519,6 +519,9 @@ type Job struct {
 	WantFuncs bool     `json:"want_funcs,omitempty"`
 	Lockset   bool     `json:"lockset,omitempty"`
 	MaxViol   int      `json:"max_viol,omitempty"`
+	// EngineReplay: the harness drives stubbed timers, so counterexamples are replayed concretely
+	// inside the engine instead of against the native build
+	EngineReplay bool `json:"engine_replay,omitempty"`
 }
 
 var solvers = map[string]*Solver{}
